@@ -21,19 +21,27 @@ import math
 
 import pfimport  # noqa: F401
 from pfimport import exc_enum
-from pipefunc.map._mapspec import ArraySpec, MapSpec, mapspec_axes, validate_consistent_axes
+import re as _re
+
+import c08_extract
+from pipefunc.map._mapspec import ArraySpec, MapSpec, mapspec_axes, mapspec_dimensions, trace_dependencies, validate_consistent_axes
 
 PID = "C08"
-PROPS = ["PfModel.Props.C08"]
+PROPS = ["PfModel.Props.C08", "PfModel.Props.C08Regex", "PfModel.Props.C08Axes", "PfModel.Props.C08Src"]
+GENERATED = True          # Props/C08Src.lean is proved against lean/PfModel/Generated/C08Facts.lean, regenerated from the source on every run
 DRIVER = "C08"
-RULE = ("three seeded streams: (1) structured specs (0-3 inputs, 1-2 outputs, 1-4 index names, rank 1-3 with ':' axes, plain / "
+RULE = ("four seeded streams: (1) structured specs (0-3 inputs, 1-2 outputs, 1-4 index names, rank 1-3 with ':' axes, plain / "
         "scoped / keyword-like names; a minority with a repeated index, a repeated array name, rank 0, or one structural "
         "malformation) each with a batch of operations: str, round trip, shape on consistent and perturbed shape dicts (sizes 0-4), "
         "output_key and input_keys over all linear indices of shapes with sizes 1-4, rename, add_axes; (2) strings: printings of "
         "well-formed specs re-spaced with arbitrary whitespace, and strings damaged by 16 mutation operators; (3) lists of specs for "
-        "validate_consistent_axes / mapspec_axes. A case is non-trivial when the spec has at least one input or the string at "
+        "validate_consistent_axes / mapspec_axes / mapspec_dimensions / trace_dependencies (for consistent lists the tables must give every "
+        "spec its own rank and axis names); (4) re.findall with the pattern literal re-extracted from the source against the Lean regex "
+        "engine on random strings over 'ab1_.[]:, \\n-x', concatenations of adversarial pieces and mutated printings. A case is non-trivial when the spec has at least one input or the string at "
         "least one bracket; distinct by the case's JSON")
-ASSUMPTIONS = ["ASCII identifiers only (the driver answers skip for anything else; the generators produce none)",
+ASSUMPTIONS = ["the regex engine of Model/MapSpecRegex.lean is the reading of CPython's sre (leftmost match, greedy/lazy priority order); it is exact for "
+               "patterns whose repeated bodies and matches are never empty (proved for the source's pattern) and is compared with re.findall on every run",
+               "ASCII identifiers only (the driver answers skip for anything else; the generators produce none)",
                "shape sizes and linear indices are naturals; internal shapes hold integers",
                "the private dataclass field _is_generated is not modelled: equality of specs is on (inputs, outputs) except in the "
                "round-trip clause, which uses the implementation's own == on user-constructed specs",
@@ -637,7 +645,24 @@ def run_multi_impl(case):
     except Exception as e:  # noqa: BLE001
         cons = {"err": exc_enum(e)}
     ax = attempt(lambda: mapspec_axes(ms), lambda d: sorted([k, list(v)] for k, v in d.items()))
-    return {"consistent": cons, "axes": ax}, []
+    dims = attempt(lambda: mapspec_dimensions(ms), lambda d: sorted([k, int(v)] for k, v in d.items()))
+    tr = attempt(lambda: trace_dependencies(ms),
+                 lambda d: sorted([o, sorted([x, list(axs)] for x, axs in dd.items())] for o, dd in d.items()))
+    if "err" in tr and "RecursionError" in tr["err"]:
+        tr = {"err": "RecursionError"}
+    bad = []
+    # what the two tables are *for* (C19/C12 read them): when the specs are consistent every spec's own rank / own axis names are
+    # what the tables say (C08_mapspec_axes_denotes, C08_mapspec_dimensions)
+    if cons is True and "ok" in ax and "ok" in dims:
+        axd, dimd = dict((k, v) for k, v in ax["ok"]), dict(dims["ok"])
+        for sp in case["specs"]:
+            for n, axes in sp["inputs"] + sp["outputs"]:
+                if dimd.get(n) != len(axes):
+                    bad.append(f"mapspec_dimensions[{n!r}] = {dimd.get(n)} but a consistent spec names it with rank {len(axes)}")
+                t = axd.get(n)
+                if t is None or len(t) != len(axes) or any(a is not None and t[i] != a for i, a in enumerate(axes)):
+                    bad.append(f"mapspec_axes[{n!r}] = {t} contradicts the consistent spec {n}{axes}")
+    return {"consistent": cons, "axes": ax, "dims": dims, "trace": tr}, bad[:1]
 
 
 def requests_for(case):
@@ -645,7 +670,9 @@ def requests_for(case):
         return [{"m": "parse", "a": {"s": case["s"]}}]
     if case["k"] == "ops":
         return [{"m": "ops", "a": {"spec": case["spec"], "ops": case["ops"]}}]
-    return [{"m": "consistent", "a": {"specs": case["specs"]}}, {"m": "axes", "a": {"specs": case["specs"]}}]
+    if case["k"] == "findall":
+        return [{"m": "findall", "a": {"s": case["s"]}}]
+    return [{"m": e, "a": {"specs": case["specs"]}} for e in ("consistent", "axes", "consistent_loop", "dims", "trace")]
 
 
 def canon_model(case, resps):
@@ -657,7 +684,21 @@ def canon_model(case, resps):
         ax = resps[1]["r"]
         if "ok" in ax:
             ax = {"ok": sorted(ax["ok"])}
-        return {"consistent": resps[0]["r"], "axes": ax}
+        dims, tr = resps[3]["r"], resps[4]["r"]
+        if "ok" in dims:
+            dims = {"ok": sorted(dims["ok"])}
+        if "ok" in tr:
+            tr = {"ok": sorted([o, sorted(row)] for o, row in tr["ok"])}
+        out = {"consistent": resps[0]["r"], "axes": ax, "dims": dims, "trace": tr}
+        if resps[2]["r"] != resps[0]["r"]:
+            out["model-self-check"] = "consistentAxesLoop differs from consistentAxes"
+        return out
+    if case["k"] == "findall":
+        r = resps[0]["r"]
+        out = {"ok": r["ok"]}
+        if r.get("scanner_agrees") is not True or r.get("parse_agrees") is not True:
+            out["model-self-check"] = "regex engine and scanner differ (C08_regex_findall / C08_parse_is_regex)"
+        return out
     r = copy.deepcopy(resps[0]["r"])
     for i, op in enumerate(case["ops"]):
         if "ops" not in r:
@@ -673,9 +714,48 @@ def canon_model(case, resps):
     return r
 
 
+_PATTERN = None
+
+
+def source_pattern():
+    """the literal `_parse_indexed_arrays` hands to re.findall, re-extracted from the source under test"""
+    global _PATTERN
+    if _PATTERN is None:
+        try:
+            _PATTERN = c08_extract.extract()["pattern"]
+        except Exception:  # noqa: BLE001   broken tie: reported through the build of Props/C08Src
+            _PATTERN = False
+    return _PATTERN
+
+
+def run_findall_impl(case):
+    """CPython's `re.findall` on the source's pattern: what the Lean regex engine (`reFindAll arrayRe`) must reproduce"""
+    pat = source_pattern()
+    r = attempt(lambda: [list(t) for t in _re.findall(pat, case["s"])])
+    return r, []
+
+
+FA_ALPHA = "ab1_..[[]]:, \n-x"
+FA_PIECES = ["a", "b1", "_", "a.b", "a.b.c", ".", "..", "[", "]", "[]", "[i]", "[i, j]", "[:]", "[\n]", "[i\n]", "]]", "[[", " ", ",", "->", "a.[i]",
+             "a.b[", "ab.cd[i", ".a[i]", "a..b[i]", "1[2]", "é[i]", "a[]]", "x.y.z[k]", "\n"]
+
+
+def gen_findall_case(rng):
+    r = rng.random()
+    if r < 0.45:
+        s = "".join(rng.choice(FA_ALPHA) for _ in range(rng.randint(0, 14)))
+    elif r < 0.9:
+        s = "".join(rng.choice(FA_PIECES) for _ in range(rng.randint(1, 6)))
+    else:
+        s, _ = mutate_string(rng, to_str(gen_spec(rng, odd=0.05)))
+    return {"k": "findall", "s": s, "label": "random" if r < 0.45 else "pieces" if r < 0.9 else "mutated-spec"}
+
+
 def run_impl(case):
     if case["k"] == "parse":
         return run_parse_impl(case)
+    if case["k"] == "findall":
+        return run_findall_impl(case)
     if case["k"] == "ops":
         return run_ops_impl(case)
     return run_multi_impl(case)
@@ -686,7 +766,7 @@ def ascii_only(case):
 
 
 def nontrivial(case):
-    if case["k"] == "parse":
+    if case["k"] in ("parse", "findall"):
         return "[" in case["s"]
     if case["k"] == "ops":
         return bool(case["spec"]["inputs"])
@@ -694,6 +774,10 @@ def nontrivial(case):
 
 
 def first_diff(case, impl, model):
+    if case["k"] == "multi" and isinstance(impl, dict) and isinstance(model, dict):
+        for key in ("consistent", "axes", "dims", "trace", "model-self-check"):
+            if impl.get(key) != model.get(key):
+                return f"multi:{key}"
     if case["k"] != "ops" or not isinstance(impl, dict) or not isinstance(model, dict):
         return case["k"]
     if impl.get("construct") != model.get("construct"):
@@ -734,6 +818,8 @@ def check_cases(ctx, cases):
             ctx.count(f"{case['k']}:{case['label']}")
         if case["k"] == "parse":
             ctx.count("parse:accepted" if "ok" in o else f"parse:{o['err']}")
+        elif case["k"] == "findall":
+            ctx.count(f"findall:matches={min(len(o.get('ok', [])), 3)}{'+' if len(o.get('ok', [])) > 3 else ''}")
         elif case["k"] == "ops":
             ctx.count("construct:accepted" if "ok" in o.get("construct", {}) else f"construct:{o.get('construct', {}).get('err')}")
             for op, r in zip(case["ops"], o.get("ops", [])):
@@ -743,6 +829,7 @@ def check_cases(ctx, cases):
         else:
             ctx.count(f"multi:consistent={o['consistent']}")
             ctx.count("multi:axes-" + ("ok" if "ok" in o["axes"] else o["axes"]["err"]))
+            ctx.count("multi:trace-" + (("ok:outputs=" + str(len(o["trace"]["ok"]))) if "ok" in o["trace"] else o["trace"]["err"]))
             if not gap_free(case["specs"]):
                 ctx.count("multi:axes-with-unnamed-positions")
         ctx.record(case, nontrivial(case))
@@ -814,9 +901,10 @@ def exhaustive_ops(spec):
 def run(ctx):
     check_cases(ctx, [copy.deepcopy(c) for c in CORPUS])
     rng = ctx.rng
-    n_ops, n_str, n_multi = ctx.n(3000, 40000), ctx.n(6000, 80000), ctx.n(600, 8000)
+    n_ops, n_str, n_multi = ctx.n(3000, 40000), ctx.n(6000, 80000), ctx.n(1200, 12000)
+    n_fa = ctx.n(5000, 80000) if source_pattern() else 0
     chunk = 20000
-    todo = [gen_ops_case] * n_ops + [gen_string_case] * n_str + [gen_multi_case] * n_multi
+    todo = [gen_ops_case] * n_ops + [gen_string_case] * n_str + [gen_multi_case] * n_multi + [gen_findall_case] * n_fa
     for at in range(0, len(todo), chunk):
         check_cases(ctx, [g(rng) for g in todo[at:at + chunk]])
     if ctx.tier == "thorough":
@@ -826,6 +914,16 @@ def run(ctx):
             if len(batch) >= chunk:
                 check_cases(ctx, batch); batch = []
         check_cases(ctx, batch)
+
+
+def pre_build(ctx):
+    """Translator (secondary tie): regenerate lean/PfModel/Generated/C08Facts.lean from pipefunc/map/_mapspec.py."""
+    try:
+        f = c08_extract.write()
+        ctx.extra["translated_from_source"] = {k: f[k] for k in ("pattern", "arrow", "comma", "side_literals", "index_literals")}
+    except Exception as e:  # noqa: BLE001   the source no longer has the shape the translator understands: a broken tie
+        ctx.notes.append(f"translator failed: {type(e).__name__}: {e}")
+        c08_extract.write_text(c08_extract.STUB)
 
 
 def replay(ctx, case):
